@@ -231,7 +231,8 @@ Section HM3.
     exists m', hm_rehash K V kdflt vdflt keqb khash bcount m = Ok m' /\ hm_inv K V keqb khash m' /\
       hm_abs K V m' = hm_abs K V m /\ hsize m' = hsize m /\ bcount <= length (hbuckets m') /\
       (0 < hsize m -> 0 < length (hbuckets m')) /\
-      (length (hnodes m) <= length (hnodes m') -> positional (hnodes m) (hnodes m')).
+      (length (hnodes m) <= length (hnodes m') -> positional (hnodes m) (hnodes m')) /\
+      hm_rehash_sizes K V bcount m = Some (length (hbuckets m'), length (hnodes m')).
   Proof.
     intros bcount m U0 Hsize. unfold hm_rehash.
     pose proof hm_maxlf_pos as LFpos.
@@ -340,7 +341,11 @@ Section HM3.
       + unfold MAXLF. fold nc0. lia.
       + intros Hb. apply Hn3. assumption.
     - intros Hpos. destruct (Nat.eq_dec bc 0) as [Ez|]; [|lia]. destruct (Hn4 Ez). lia.
-    - intros Hle i nd Hi Fi. rewrite LN' in Hle.
-      pose proof (Hpos2 Hle i nd Hi) as H2. destruct (proj2 KV2' i nd H2) as (x & Hx & Sx). eauto.
+    - split.
+      + intros Hle i nd Hi Fi. rewrite LN' in Hle.
+        pose proof (Hpos2 Hle i nd Hi) as H2. destruct (proj2 KV2' i nd H2) as (x & Hx & Sx). eauto.
+      + unfold hm_rehash_sizes. fold minb. fold bc0.
+        destruct (Z.ltb_spec (roundpow2 (Z.of_nat bc0)) (Z.of_nat bc0)); [lia|]. fold bc. fold nc0. fold nc.
+        rewrite LB', LN'. reflexivity.
   Qed.
 End HM3.
